@@ -56,12 +56,19 @@ type region struct {
 	parts  []part
 	lo, hi int // buf[lo:hi] holds arguments, gaps and spare capacity; the rest is guard
 	packed bool
+	f      *fence // memory kind fenced: the pages the buffer lives in (fence_test.go)
 }
 
 type arena struct {
 	seed   uint64
 	regs   []*region
 	frozen bool // the call is over: every byte (the former dst too) is the caller's and must stay what it is
+	// memory kind fenced (fence_test.go): the regions live in pages of their own, read-only during the call wherever the callee has no right to write
+	fenced       bool
+	capHint      bool    // the in-place dst of this call is capped at its length: the page boundary goes there
+	fenceErr     error   // pages could not be had / protected: the case falls back to the comparison after the call
+	faultMsg     string  // the call faulted writing memory of this arena
+	foreignFault uintptr // the call faulted at an address outside this arena (a sequence looks for it in the arenas of the earlier calls)
 }
 
 func (a *arena) canary(name string, n int) []byte {
@@ -70,10 +77,17 @@ func (a *arena) canary(name string, n int) []byte {
 
 // cut makes the argument called name with the given content and spare capacity, in a region of its own.
 func (a *arena) cut(name string, content []byte, spare int) []byte {
+	return a.cutB(name, content, spare, guardLen+len(content)+spare, false)
+}
+
+// cutB is cut with the byte of the buffer named that starts a page when the memory is fenced (cut: the end of the capacity).
+// hasDst: the region is, or will be made, a destination.
+func (a *arena) cutB(name string, content []byte, spare, boundary int, hasDst bool) []byte {
 	r := &region{name: name, lo: guardLen, hi: guardLen + len(content) + spare}
-	r.buf = a.canary(name, guardLen+len(content)+spare+guardLen)
-	copy(r.buf[guardLen:], content)
-	r.saved = append([]byte{}, r.buf...)
+	img := a.canary(name, guardLen+len(content)+spare+guardLen)
+	copy(img[guardLen:], content)
+	r.saved = append([]byte{}, img...)
+	r.buf, r.f = a.alloc(img, boundary, hasDst)
 	r.parts = []part{{name: name, off: guardLen, n: len(content), capEnd: r.hi}}
 	a.regs = append(a.regs, r)
 	return r.buf[guardLen : guardLen+len(content) : r.hi]
@@ -81,7 +95,7 @@ func (a *arena) cut(name string, content []byte, spare int) []byte {
 
 // dst makes an explicit destination buffer (writable up to its capacity).
 func (a *arena) dst(name string, content []byte, spare int) []byte {
-	s := a.cut(name, content, spare)
+	s := a.cutB(name, content, spare, guardLen+len(content)+spare, true)
 	a.regs[len(a.regs)-1].parts[0].writable = true
 	return s
 }
@@ -123,31 +137,47 @@ func (a *arena) pack(items []packItem, capMode string) [][]byte {
 		names = append(names, it.name)
 	}
 	r := &region{name: "packed(" + strings.Join(names, "|") + ")", lo: guardLen, hi: end, packed: true}
-	r.buf = a.canary(r.name, end+guardLen)
-	for i, it := range items {
-		copy(r.buf[offs[i]:], it.content) // memory order: where two arguments overlap, the later one defines the bytes
-	}
-	out := make([][]byte, n)
+	// where the capacity of each sub-slice ends
+	caps := make([]int, n)
 	for i, it := range items {
 		e := offs[i] + len(it.content)
 		next := end // "gap": up to the next argument that starts at or behind the end of this one
 		if i < n-1 {
 			next = max(e, offs[i+1])
 		}
-		capEnd := e
+		caps[i] = e
 		switch capMode {
 		case "gap":
-			capEnd = next
+			caps[i] = next
 		case "end":
-			capEnd = end
+			caps[i] = end
 		}
 		if it.writable {
-			capEnd = min(capEnd, next)
+			caps[i] = min(caps[i], next)
 		}
-		r.parts = append(r.parts, part{name: it.name, off: offs[i], n: len(it.content), capEnd: capEnd, writable: it.writable})
-		out[i] = r.buf[offs[i]:e:capEnd]
 	}
-	r.saved = append([]byte{}, r.buf...)
+	// fenced memory: the page boundary is where the memory the callee may write ends (the capacity of the in-place dst, or its
+	// length when the caller caps it there); without a dst, at the end of the usable buffer
+	boundary, hasDst := end, false
+	for i, it := range items {
+		if it.writable {
+			if boundary, hasDst = caps[i], true; a.capHint {
+				boundary = offs[i] + len(it.content)
+			}
+		}
+	}
+	img := a.canary(r.name, end+guardLen)
+	for i, it := range items {
+		copy(img[offs[i]:], it.content) // memory order: where two arguments overlap, the later one defines the bytes
+	}
+	r.saved = append([]byte{}, img...)
+	r.buf, r.f = a.alloc(img, boundary, hasDst)
+	out := make([][]byte, n)
+	for i, it := range items {
+		e := offs[i] + len(it.content)
+		r.parts = append(r.parts, part{name: it.name, off: offs[i], n: len(it.content), capEnd: caps[i], writable: it.writable})
+		out[i] = r.buf[offs[i]:e:caps[i]]
+	}
 	a.regs = append(a.regs, r)
 	return out
 }
@@ -183,6 +213,7 @@ func (a *arena) freeze() {
 		copy(r.saved, r.buf)
 	}
 	a.frozen = true
+	a.seal()
 }
 
 func (r *region) mayChange(i int) bool {
@@ -361,11 +392,22 @@ func (l *ledger) add(step int, what string, a *arena, pinned bool) {
 	}
 	for i := 0; n > l.keep && i < len(l.entries); i++ {
 		if !l.entries[i].pinned {
+			l.entries[i].a.release() // forgotten: its pages go back
 			l.entries = append(l.entries[:i], l.entries[i+1:]...)
 			n--
 			i--
 		}
 	}
+}
+
+// locate looks for the address of a fault in the memory of the remembered calls.
+func (l *ledger) locate(addr uintptr) (step int, what, where string) {
+	for _, e := range l.entries {
+		if w := e.a.locate(addr); w != "" {
+			return e.step, e.what, w
+		}
+	}
+	return 0, "", ""
 }
 
 // verify compares the memory of every remembered call with what it was when that call returned.
